@@ -259,7 +259,10 @@ def run_keysets(case, part):
 
 
 PREFIXES = ["", "a", "\u00e9", "name", "\ud7ff"]
-TAILS = ["", "\u007f", "\ud7ff", "\ue000", "\uff21", "\uffff", "\U00010000", "\U0001f600", "\U0010ffff", "a"]
+TAILS = ["", "\u007f", "\ud7ff", "\ue000", "\uff21", "\uffff", "\U00010000", "\U0001f600", "\U0010ffff", "a",
+         # characters whose place changes once a name is QUOTED or ESCAPED (below the quote character; the quote and the backslash themselves; control characters written \u00XX; next to
+         # digits and upper-case letters, which lie between '"' and '\\'): the order is that of the raw names
+         " ", "!", "\"", "\\", "\u001f", "\n", "A", "0", "Z"]
 
 
 def run_prefixed_keys(case, part):
